@@ -14,7 +14,7 @@ use vpmodel::spec::{chain_from_scripts, ChainSpec};
 pub const DEF: PropDef = PropDef {
     id: "C17",
     level: "exploration",
-    rule: "chains of 40..400 one-transaction blocks spread over 1..300 blk files in generated ways: disjoint height spans, overlapping spans (a window of k files active at a time), two or three files interleaved in height, random assignment; optional --start/--end inside a file. Oracle 1 (descriptor limit): N0 := smallest RLIMIT_NOFILE under which the single-file layout of the same chain and callback succeeds (binary search); the multi-file layout must succeed under N0 + (w-1), w = the model's maximum, over processed heights h, of the number of files that were touched at or before h and still hold a block of height >= h, and produce the same output. Oracle 2 (trace): under strace the number of simultaneously open blk*.dat descriptors never exceeds w, and every block is still delivered after a file was closed and reopened. Non-trivial = at least N0+20 files with w <= 3; distinct by layout hash.",
+    rule: "chains of 40..400 one-transaction blocks spread over 1..300 blk files in generated ways: disjoint height spans, overlapping spans (a window of k files active at a time), two or three files interleaved in height, random assignment; optional --start/--end inside a file; 40% of the directories are XOR-obfuscated. Oracle 1 (descriptor limit): N0 := smallest RLIMIT_NOFILE under which the single-file layout of the same chain and callback succeeds (binary search); the multi-file layout must succeed under N0 + (w-1), w = the model's maximum, over processed heights h, of the number of files that were touched at or before h and still hold a block of height >= h, and produce the same output. Oracle 2 (trace): under strace the number of simultaneously open blk*.dat descriptors never exceeds w, and every block is still delivered after a file was closed and reopened. Non-trivial = at least N0+20 files with w <= 3; distinct by layout hash.",
     assumptions: &["the descriptors the tool needs besides blk files (LevelDB, dump files, stdio) do not depend on the blk layout: calibrated per case on the single-file layout"],
     run,
     replay,
@@ -40,12 +40,15 @@ pub struct Case {
     pub start: Option<u16>,
     pub end: Option<u16>,
     pub reverse_order: bool,
+    /// the directory is XOR-obfuscated (a reopened file must still be decoded)
+    #[serde(default)]
+    pub xor: bool,
 }
 
 pub fn strategy(tier: Tier) -> BS<Case> {
     let maxb = if tier == Tier::Quick { 260u16 } else { 600 };
-    (40u16..maxb, prop_oneof![1 => 1u16..4, 6 => 30u16..300], prop_oneof![4 => Just(Shape::Disjoint), 3 => (2u8..4).prop_map(Shape::Overlap), 3 => (2u8..4).prop_map(Shape::Interleave), 1 => proptest::collection::vec(any::<u16>(), 4..40).prop_map(Shape::Random)], proptest::sample::select(vec![Callback::CsvDump, Callback::SimpleStats, Callback::UnspentCsvDump]), proptest::option::weighted(0.3, any::<u16>()), proptest::option::weighted(0.3, any::<u16>()), any::<bool>())
-        .prop_map(|(nblocks, nfiles, shape, cb, start, end, reverse_order)| Case { nblocks, nfiles: nfiles.min(nblocks), shape, cb, start, end, reverse_order })
+    (40u16..maxb, prop_oneof![1 => 1u16..4, 6 => 30u16..300], prop_oneof![4 => Just(Shape::Disjoint), 3 => (2u8..4).prop_map(Shape::Overlap), 3 => (2u8..4).prop_map(Shape::Interleave), 1 => proptest::collection::vec(any::<u16>(), 4..40).prop_map(Shape::Random)], proptest::sample::select(vec![Callback::CsvDump, Callback::SimpleStats, Callback::UnspentCsvDump]), proptest::option::weighted(0.3, any::<u16>()), proptest::option::weighted(0.3, any::<u16>()), any::<bool>(), proptest::bool::weighted(0.4))
+        .prop_map(|(nblocks, nfiles, shape, cb, start, end, reverse_order, xor)| Case { nblocks, nfiles: nfiles.min(nblocks), shape, cb, start, end, reverse_order, xor })
         .boxed()
 }
 
@@ -79,7 +82,7 @@ fn layout(c: &Case) -> LayoutSpec {
         order: if c.reverse_order { (0..nb).map(|i| (nb - i) as u16).collect() } else { vec![0] },
         gaps: vec![Gap::None],
         lead: vec![Gap::None],
-        xor: None,
+        xor: if c.xor { Some(vec![0x9d, 0x01, 0xfe, 0x33, 0x00, 0x7a, 0xc4, 0x5b]) } else { None },
         extras: Default::default(),
         ldb_small: false,
         ldb_reopens: 0,
@@ -122,7 +125,9 @@ pub fn check(c: &Case) -> Verdict {
     o.start = if s > 0 { Some(s) } else { None };
     o.end = end;
     // 1. calibrate on the single-file layout
-    let mut plan1 = LayoutSpec::canonical().to_plan(&built);
+    let mut single = LayoutSpec::canonical();
+    single.xor = layout(c).xor;
+    let mut plan1 = single.to_plan(&built);
     let w1 = infra!(World::create("c17a", &mut plan1));
     let mut runs = 0;
     let (mut lo, mut hi) = (3u64, 64u64); // lo fails, hi succeeds
@@ -198,7 +203,7 @@ pub fn check(c: &Case) -> Verdict {
     if max_open > wd {
         return Verdict::Fail(format!("trace: {} blk files open at the same time, but at most {} files hold a block of a height yet to come ({} files, {:?})", max_open, wd, nfiles_used, c.shape));
     }
-    let classes = vec![format!("shape={}", match &c.shape { Shape::Disjoint => "disjoint", Shape::Overlap(_) => "overlap", Shape::Interleave(_) => "interleave", Shape::Random(_) => "random" }), format!("files={}", match nfiles_used { 0..=3 => "1-3", 4..=49 => "4-49", 50..=149 => "50-149", _ => "150+" }), format!("w={}", wd.min(5)), format!("cb={}", c.cb.cli()), format!("ranged={}", c.start.is_some() || c.end.is_some()), format!("reopen={}", opens > nfiles_used)];
+    let classes = vec![format!("shape={}", match &c.shape { Shape::Disjoint => "disjoint", Shape::Overlap(_) => "overlap", Shape::Interleave(_) => "interleave", Shape::Random(_) => "random" }), format!("files={}", match nfiles_used { 0..=3 => "1-3", 4..=49 => "4-49", 50..=149 => "50-149", _ => "150+" }), format!("w={}", wd.min(5)), format!("cb={}", c.cb.cli()), format!("ranged={}", c.start.is_some() || c.end.is_some()), format!("reopen={}", opens > nfiles_used), format!("xor={}", c.xor)];
     let sample = serde_json::json!({"blocks": nb, "files": nfiles_used, "shape": format!("{:?}", c.shape).chars().take(60).collect::<String>(), "range": format!("{}..={}", s, e), "N0": n0, "w": wd, "limit": limit, "max_open_blk_in_trace": max_open, "opens_in_trace": opens, "callback": c.cb.cli()});
     Verdict::Pass(Pass { nontrivial: nfiles_used as u64 >= n0 + 20 && wd <= 3, key: key_of(c), classes, known: vec![], sub_evals: runs, sample: Some(sample), extra_keys: vec![] })
 }
